@@ -99,7 +99,7 @@ def job_text(job):
 
 
 def describe(job, style, dicts, text=None):
-    d = {k: job[k] for k in ("path", "variant", "vseed", "config", "cseed") if k in job}
+    d = {k: job[k] for k in ("path", "variant", "vseed", "config", "cseed", "fix_only_all", "fix_phase", "skip_phase") if k in job}
     d["style"] = style
     d["config_dicts"] = dicts
     if text is not None:
@@ -259,6 +259,10 @@ def run_job_inner(job):
                 rule.had_violations = had
                 rule.violations = []
 
+    if job.get("fix_only_all") and job.get("fix_only") is None:
+        # --fix_only naming every rule with "all": must behave like a plain --fix (C20), in particular
+        # unfixable / fixable:false / warning rules stay inert (C03)
+        job = dict(job, fix_only={"fix": {"rule": {r.unique_id: ["all"] for r in rl.rules}}})
     steps, exc, ser = vsgrun.instrumented_fix(o, rl, ci, fix_phase=job.get("fix_phase", 7), skip_phase=job.get("skip_phase"), fix_only=job.get("fix_only"), on_step=on_step, harvest="trace" in feats)
     if "trace" in feats:
         # layer B: replay every violation of a modelled `_fix_violation` owner through Lean
@@ -363,6 +367,8 @@ def make_jobs(tier, features=("trace",), limit=None):
         j = {"path": p, "variant": ("orig", "messy", "glue")[i % 3], "vseed": seedv * 1000 + i, "config": c, "features": feats}
         if c.startswith("random"):
             j["cseed"] = seedv * 1000 + (i % 40)
+            if i % 4 == 0:
+                j["fix_only_all"] = True
         jobs.append(j)
     if limit:
         jobs = jobs[:limit]
